@@ -20,6 +20,7 @@ import TantivyModel.Proofs.DocSet.ScoreMoves
 import TantivyModel.Proofs.DocSet.BufferedUnionScoreDanger
 import TantivyModel.Proofs.DocSet.ScoreCompose
 import TantivyModel.Proofs.DocSet.TinySetBridge
+import TantivyModel.Proofs.DocSet.TreeScore1
 import TantivyModel.Model.DocSet.Tree
 /-!
 # C13 — every DocSet is one sorted sequence under any mix of advance and seek
@@ -742,6 +743,76 @@ theorem C13_tree_end_sticky (fx : Fix) (n : Nat) (t : Tree) (hden : Den n t [])
 theorem C13_tree_score_keeps_state (fx : Fix) (n : Nat) :
     ScoreOK (levelDS fx n) (LevelVW n).1 (LevelVW n).2 := (level_lawful fx n).2
 
+/-! ### the score clause on the model the driver runs (`levelDS`, `buildTree`), nesting depth 1
+
+Score counterpart of `C13_tree_program_equiv` for the tree descriptions with one scoring node over
+vector / bitset leaves (`Den 0` leaves: sorted lists of small documents). `scoreOf c`: the constant
+score of leaf `c`; `tsum cs ls x`: the sum of the scores of the leaves whose list holds `x`. Programs:
+every legal call program without `count` (and, for the union, without its own `fill_buffer`, for
+which the statement is false); the statement is made whenever the cursor is not in a danger zone. -/
+
+/-- SUM `BufferedUnionScorer` over leaves: `buildTree` succeeds and `score()` of the scorer the driver
+runs is the sum of the scores of the leaves containing the current document -/
+theorem C13_tree1_union_score (fx : Fix) (cs : List Tree) (ls : List (List Nat)) (U : List Nat)
+    (hA : All2 (Den 0) cs ls) (hU : SimpleUnion.IsUnion U ls) (prog : List Op)
+    (hl : legalProg ⟨U, none⟩ prog = true) (hnc : ∀ op ∈ prog, op ≠ Op.count) (hnf : noFill prog)
+    (hnd : (specFinal ⟨U, none⟩ prog).danger = none) :
+    ∃ s, buildTree fx 1 (.bunion true cs) = some s
+      ∧ (levelDS fx 1).doc (implFinal (levelDS fx 1) s prog) = Spec.doc (specFinal ⟨U, none⟩ prog).rest
+      ∧ ((levelDS fx 1).doc (implFinal (levelDS fx 1) s prog) < TERMINATED →
+          ((levelDS fx 1).score (implFinal (levelDS fx 1) s prog)).1
+            = tsum cs ls ((levelDS fx 1).doc (implFinal (levelDS fx 1) s prog))) :=
+  tree1_union_score fx cs ls U hA hU prog hl hnc hnf hnd
+
+/-- minimum-should-match `Disjunction` (SumCombiner) over leaves -/
+theorem C13_tree1_disjunction_score (fx : Fix) (k : Nat) (cs : List Tree) (ls : List (List Nat))
+    (L : List Nat) (hA : All2 (Den 0) cs ls) (hk : 1 ≤ k) (hL : Sorted L)
+    (hmem : ∀ x, x ∈ L ↔ k ≤ Disj.cnt x ls) (prog : List Op) (hl : legalProg ⟨L, none⟩ prog = true)
+    (hnc : ∀ op ∈ prog, op ≠ Op.count) (hnd : (specFinal ⟨L, none⟩ prog).danger = none) :
+    ∃ s, buildTree fx 1 (.disj true k cs) = some s
+      ∧ (levelDS fx 1).doc (implFinal (levelDS fx 1) s prog) = Spec.doc (specFinal ⟨L, none⟩ prog).rest
+      ∧ ((levelDS fx 1).doc (implFinal (levelDS fx 1) s prog) < TERMINATED →
+          ((levelDS fx 1).score (implFinal (levelDS fx 1) s prog)).1
+            = tsum cs ls ((levelDS fx 1).doc (implFinal (levelDS fx 1) s prog))) :=
+  tree1_disj_score fx k cs ls L hA hk hL hmem prog hl hnc hnd
+
+/-- `Intersection` over leaves: the score is the sum of the scores of all its leaves -/
+theorem C13_tree1_intersection_score (fx : Fix) (dense : Bool) (tl tr : Tree) (tos : List Tree)
+    (ll lr : List Nat) (los : List (List Nat)) (hl0 : Den 0 tl ll) (hr0 : Den 0 tr lr)
+    (ho0 : All2 (Den 0) tos los) (prog : List Op)
+    (hl : legalProg ⟨Inter.Common ll lr los, none⟩ prog = true) (hnc : ∀ op ∈ prog, op ≠ Op.count)
+    (hnd : (specFinal ⟨Inter.Common ll lr los, none⟩ prog).danger = none) :
+    ∃ s, buildTree fx 1 (.inter dense (tl :: tr :: tos)) = some s
+      ∧ (levelDS fx 1).doc (implFinal (levelDS fx 1) s prog)
+          = Spec.doc (specFinal ⟨Inter.Common ll lr los, none⟩ prog).rest
+      ∧ ((levelDS fx 1).doc (implFinal (levelDS fx 1) s prog) < TERMINATED →
+          ((levelDS fx 1).score (implFinal (levelDS fx 1) s prog)).1 = ((tl :: tr :: tos).map scoreOf).sum) :=
+  tree1_inter_score fx dense tl tr tos ll lr los hl0 hr0 ho0 prog hl hnc hnd
+
+/-- `RequiredOptionalScorer` (SumCombiner) over two leaves: required score plus the optional score on
+the optional leaf's documents -/
+theorem C13_tree1_reqopt_score (fx : Fix) (treq topt : Tree) (l lo : List Nat) (hr0 : Den 0 treq l)
+    (ho0 : Den 0 topt lo) (prog : List Op) (hl : legalProg ⟨l, none⟩ prog = true)
+    (hnc : ∀ op ∈ prog, op ≠ Op.count) (hnd : (specFinal ⟨l, none⟩ prog).danger = none) :
+    ∃ s, buildTree fx 1 (.reqopt true treq topt) = some s
+      ∧ (levelDS fx 1).doc (implFinal (levelDS fx 1) s prog) = Spec.doc (specFinal ⟨l, none⟩ prog).rest
+      ∧ ((levelDS fx 1).doc (implFinal (levelDS fx 1) s prog) < TERMINATED →
+          ((levelDS fx 1).score (implFinal (levelDS fx 1) s prog)).1
+            = scoreOf treq + (if (levelDS fx 1).doc (implFinal (levelDS fx 1) s prog) ∈ lo then scoreOf topt else 0)) :=
+  tree1_reqopt_score fx treq topt l lo hr0 ho0 prog hl hnc hnd
+
+/-- `Exclude` over leaves: the score is the underlying leaf's -/
+theorem C13_tree1_exclude_score (fx : Fix) (tu : Tree) (tes : List Tree) (lu : List Nat)
+    (les : List (List Nat)) (hu0 : Den 0 tu lu) (he0 : All2 (Den 0) tes les) (prog : List Op)
+    (hl : legalProg ⟨lu.filter (Exclude.ok les), none⟩ prog = true) (hnc : ∀ op ∈ prog, op ≠ Op.count)
+    (hnd : (specFinal ⟨lu.filter (Exclude.ok les), none⟩ prog).danger = none) :
+    ∃ s, buildTree fx 1 (.excl tu tes) = some s
+      ∧ (levelDS fx 1).doc (implFinal (levelDS fx 1) s prog)
+          = Spec.doc (specFinal ⟨lu.filter (Exclude.ok les), none⟩ prog).rest
+      ∧ ((levelDS fx 1).doc (implFinal (levelDS fx 1) s prog) < TERMINATED →
+          ((levelDS fx 1).score (implFinal (levelDS fx 1) s prog)).1 = scoreOf tu) :=
+  tree1_excl_score fx tu tes lu les hu0 he0 prog hl hnc hnd
+
 /-! ### open statements
 
 Proved above (no longer open): `Lawful` for Intersection (incl. the dense count), BufferedUnionScorer
@@ -755,8 +826,9 @@ The SCORE clause composes: `Scored` (what a scoring parent needs from a child) h
 leaf and is closed under SUM union, Disjunction, Intersection, Exclude and RequiredOptional
 (`C13_scored_*_closed`, packaged over every nesting as `C13_score_composes`). The inner nodes there
 carry their total score function as ghost data (`DS.withGhost`); the formal link from those scorer
-types to the driver's `levelDS` / `buildTree` (as `C13_tree_program_equiv` has for the document
-sequence) is not written.
+types to the driver's `levelDS` / `buildTree` is written for nesting depth 1 (`C13_tree1_*_score`:
+one scoring node over leaves, where no ghost data is needed); for depth >= 2 it is open (it needs
+"erasing the ghost data commutes with every method of every node kind").
 
 Hypothesis kept: the children of an Intersection hold documents with doc + BLOCK_WINDOW ≤ TERMINATED
 (`Small`). It mirrors a precondition of the real default `fill_bitset_block(min_doc, ..)`: with
@@ -935,6 +1007,15 @@ example : let H := 64
   decide +kernel
 example := C13_score_composes
   (ScoredNode.inter {} (ScoredNode.union 64 (by decide) (by decide) {} (ScoredNode.reqopt ScoredNode.vec ScoredNode.vec)))
+example : Den 0 (.vec [1, 5] 2) [1, 5] := ⟨rfl, ⟨by decide, by decide⟩, by unfold Small; decide⟩
+example : tsum [.vec [1, 5] 2, .bits [5, 7] 8 3] [[1, 5], [5, 7]] 5 = 5 := by decide
+example : noFill [.advance, .seekDanger 7, .doc] := by
+  intro op hop
+  simp only [List.mem_cons, List.mem_nil_iff, or_false] at hop
+  rcases hop with rfl | rfl | rfl <;> exact (fun h => by cases h)
+example : (buildTree {} 1 (.reqopt true (.vec [1, 5, 9] 2) (.bits [5, 7] 8 3))).map
+      (fun s => ((levelDS {} 1).score (implFinal (levelDS {} 1) s [.advance])).1) = some 5 := by
+  decide +kernel
 example : Exclude.ok [[5, 7], [9]] 1 = true ∧ Exclude.ok [[5, 7], [9]] 9 = false := by decide
 example : Vec.V (Vec.init [1, 5, 9] 2) [1, 5, 9] := ⟨rfl, by
   refine ⟨by decide, ?_⟩
